@@ -80,8 +80,11 @@ class Prepared:
                         it._lut = (self.hw["lut_addr"] + 256 * it.lut_index, 256 * max(1, it.ofm.bits // 8))
                 ub = HW.usable_banks(acc, it.uses_lut) * HW.BANK
                 it._shram_written = (0, ub)
+                # working memory of the operation inside the lookup-table area (16-bank configurations share the last two banks
+                # between tables and accumulators): those bytes no longer hold a table afterwards
                 lo = max(0, self.hw["lut_addr"])
-                it._shram_clobber = (lo, min(ub, lo + HW.LUT_BYTES)) if ub > lo else None
+                hi = min(self.hw["shram_bytes"], lo + HW.LUT_BYTES)
+                it._shram_clobber = [(max(a, lo), min(b, hi)) for a, b in HW.shram_work_ranges(it, acc) if max(a, lo) < min(b, hi)]
                 it._mask = None
             elif isinstance(it, DmaOp):
                 self.n_dma += 1
@@ -144,6 +147,18 @@ class Run:
     def _check_tags(self, op, what, region, addrs, t):
         if not len(t):
             return
+        if what == "lut":
+            # a table is defined by a DMA into SHRAM; bytes last written by a kernel operation are its working memory
+            w = (t >> 20) - self.uid_base
+            mine = (t >= 0) & (w >= 0) & (w < len(self.p.prog))
+            if mine.any():
+                isk = np.array([bool(getattr(x, "is_kernel", False)) for x in self.p.prog])
+                clob = np.zeros(len(t), bool)
+                clob[mine] = isk[w[mine]]
+                if clob.any() and not any(v.get("oracle") == "lut_overwritten_by_kernel" and v.get("op") == op.idx for v in self.viol):
+                    i = int(np.argmax(clob))
+                    self.viol.append(Violation(prop="C03", oracle="lut_overwritten_by_kernel", op=op.idx, what=what, region=region, addr=int(addrs[i]),
+                                               writer_op=int(w[i]), n_bytes=int(clob.sum())))
         bad = self._bad_mask(t)
         if bad.any():
             oracle = "uninit_read" if ((t == UNINIT) | (t == POISON))[int(np.argmax(bad))] else "foreign_read"
@@ -399,8 +414,7 @@ class Run:
                 if ji == 0 or ji == len(op.jobs) - 1:
                     for what, core, reg, base, ln in FP.const_ranges(op):
                         self._read(op, what, reg, np.arange(base, base + ln, dtype=np.int64), (op.idx, ji, what, core))
-                if op._shram_clobber:
-                    lo, hi = op._shram_clobber
+                for lo, hi in op._shram_clobber:
                     self._write(op, "shram_acc", HW.SHRAM_REGION, np.arange(lo, hi, dtype=np.int64), self._tag(op, 0xFFFFF))
                 k["nr"] += 1
                 self._event(("r", op.idx, ji))
